@@ -1,30 +1,13 @@
 import Uhppote.Driver.SpecCommon
 import Uhppote.Model.Order
 import Uhppote.Spec.Order
-/-! order stream: `date-cmp`, `hhmm-cmp`, `dt-before`, `segment` — model and spec handlers. -/
+/-! order stream: `date-cmp`, `hhmm-cmp`, `dt-before`, `segment` — the specification's handler (the model's is Driver/OrderModel.lean). -/
 namespace Uhppote.Driver.Order
 open Uhppote Uhppote.Model.Order Uhppote.Spec.Order
 
 def ints (ts : List String) : Option (List Int) := ts.mapM String.toInt?
 
 def b01 (b : Bool) : String := if b then "1" else "0"
-
-def model : List String → Option String
-  | "date-cmp" :: r => do
-    let [y1, m1, d1, y2, m2, d2] ← ints (r.take 6) | none     -- an optional 7th token names the process zone
-    let p : YMD := ⟨y1, m1, d1⟩; let q : YMD := ⟨y2, m2, d2⟩
-    some s!"{b01 (dateBefore p q)} {b01 (dateEquals p q)} {b01 (dateAfter p q)}"
-  | "hhmm-cmp" :: r => do
-    let [h1, m1, h2, m2] ← ints r | none
-    let p : HM := ⟨h1, m1⟩; let q : HM := ⟨h2, m2⟩
-    some s!"{b01 (hhmmBefore p q)} {b01 (hhmmEquals p q)} {b01 (hhmmAfter p q)}"
-  | "dt-before" :: r => do
-    let [a, b] ← ints r | none
-    some (b01 (dateTimeBefore a b))
-  | "segment" :: r => do
-    let [_, h1, m1, h2, m2] ← ints r | none
-    some (if segmentRejected ⟨h1, m1⟩ ⟨h2, m2⟩ then "reject" else "accept")
-  | _ => none
 
 def specF : List String → Option String
   | "date-cmp" :: r => do
